@@ -41,11 +41,11 @@ func C16() *runner.Property {
 	return &runner.Property{
 		ID: "C16", Level: "exploration",
 		Rule: "receiver: a real Receiver.Run (per-instance downloaders, both token limits) on an instrumented bucket with 1-12 instances x limits (1,1) (1,3) (2,1) (2,3) (3,3); bucket evolutions (instances appearing, publishing 1-5 snapshots, the newest replaced while the previous waits un-merged, blobs cleaned away between List and Load), fault scripts on List/Load (first k fail, every m-th fails), corrupt blobs at every position, Load latencies 0-5 ms, " +
-			"a consumer that calls Next() fast, slowly, or holds updates before Close() (and closes twice). Oracles over the delivery log, the bucket log and the token gauges: after changes and faults stop every instance's newest decodable snapshot is returned by Next() within 300 List cycles; never more Load calls in flight than memory_downloaded_snapshots; " +
+			"a consumer that calls Next() fast, slowly, or holds updates before Close() (and closes twice). Oracles over the delivery log, the bucket log and the token gauges: after changes and faults stop every instance's newest decodable snapshot is returned by Next() within 1500 List cycles; never more Load calls in flight than memory_downloaded_snapshots; " +
 			"with one valid blob per instance never more than downloaded+decompressed limits of snapshots are held between download and hand-over; after everything was delivered and closed both token gauges are 0 (no leak, superseded snapshots released); Run returns on cancel. " +
 			"runonce: a real Sync with only_once on buckets with 0-6 instances incl. the own name, corrupt-only instances and an instance cleaned during start-up: Sync returns by itself, not before every start-up instance that is still present and decodable was merged (load.done) and not before its own upload. " +
 			"climit: recorded Acquire/Release histories (double releases, releases from other goroutines) are checked with porcupine against a counting semaphore of the configured size. Non-trivial = >= 2 instances and (a fault fired or a limit was reached).",
-		Assumptions: []string{"transient samples of the climit_active gauges may read limit+1 (the gauge is decremented after the token is returned): only quiescent gauge values are verdicts", "bounded progress: 300 List cycles (1 ms poll) after the last change or fault"},
+		Assumptions: []string{"transient samples of the climit_active gauges may read limit+1 (the gauge is decremented after the token is returned): only quiescent gauge values are verdicts", "bounded progress: 1500 List cycles (1 ms poll) after the last change or fault"},
 		BatchSize:   6, CaseTimeout: 120e9,
 		MinNonTrivial: func(string) int { return 30 },
 		Cases: func(tier string, seed int64) []runner.Case {
@@ -58,7 +58,7 @@ func C16() *runner.Property {
 			limits := [][2]int{{1, 1}, {1, 3}, {2, 1}, {2, 3}, {3, 3}}
 			for i := 0; i < n; i++ {
 				lim := limits[i%len(limits)]
-				sc := recvx.Scenario{Own: "self", DLimit: lim[0], ZLimit: lim[1], Consumer: rng.Pick(r, "fast", "slow", "hold"), Bound: 300, LoadDelay: rng.Pick(r, 0, 0, 200, 1000, 5000)}
+				sc := recvx.Scenario{Own: "self", DLimit: lim[0], ZLimit: lim[1], Consumer: rng.Pick(r, "fast", "slow", "hold"), Bound: 1500, LoadDelay: rng.Pick(r, 0, 0, 200, 1000, 5000)}
 				ni := 1 + r.Intn(12)
 				static := i%5 == 0
 				for k := 0; k < ni; k++ {
@@ -107,6 +107,26 @@ func C16() *runner.Property {
 					sc.Insts = append(sc.Insts, recvx.InstSpec{Name: "self", Blobs: []recvx.BlobSpec{{Kind: "valid"}}})
 				}
 				cs = append(cs, runner.MkCase("receiver", fmt.Sprint(i), c16Params{Part: "receiver", Sc: &sc}))
+			}
+			// an instance whose only (undecodable or failing) snapshot vanishes and which publishes again a few List
+			// cycles later, while its downloader is held at the "instance has no snapshots" branch
+			nv := 24
+			if tier == "thorough" {
+				nv = 300
+			}
+			for i := 0; i < nv; i++ {
+				gone := 2 + r.Intn(4)
+				sc := recvx.Scenario{Own: "self", DLimit: 2, ZLimit: 2, Consumer: "fast", Bound: 1500, ParkOnVanish: 2 + r.Intn(5)}
+				first := recvx.BlobSpec{Kind: "hostile", Gen: "g1-raw", Seed: r.U64(), Index: 1, RemoveAtCycle: gone}
+				if i%2 == 1 {
+					first = recvx.BlobSpec{Kind: "valid", RemoveAtCycle: gone}
+					sc.Faults = []recvx.FaultSpec{{Op: "Load", From: 1, To: 40}}
+				}
+				sc.Insts = []recvx.InstSpec{
+					{Name: "flaky", Blobs: []recvx.BlobSpec{first, {Kind: "valid", AtCycle: gone + 1 + r.Intn(4)}}},
+					{Name: "steady", Blobs: []recvx.BlobSpec{{Kind: "valid"}}},
+				}
+				cs = append(cs, runner.MkCase("receiver-vanish-reappear", fmt.Sprint(i), c16Params{Part: "receiver", Sc: &sc}))
 			}
 			nr := 40
 			if tier == "thorough" {
